@@ -53,3 +53,18 @@ def find_child(
             if child_id == id:
                 return (child, i)
     return (None, None)
+
+
+def find_child_by_id(
+        parent: Element,
+        child_tag: str,
+        id: Optional[str]
+    ) -> Tuple[Optional[Element], Optional[int]]:
+    """
+    Find the element with *child_tag* and *id* in *parent* and return
+    ``(child, index)`` or ``(None, None)`` if not found. Unlike
+    :func:`find_child`, a blank *id* (``None``) never matches anything.
+    """
+    if id is None:
+        return (None, None)
+    return find_child(parent=parent, child_tag=child_tag, id=id)
